@@ -50,6 +50,41 @@ def jev : St4sd.FsConc.Ev → Json
   | .rename a b => jobj [("k", jstr "rename"), ("a", jcps a), ("b", jcps b)]
   | .remove p => jobj [("k", jstr "remove"), ("p", jcps p)]
 
+
+open St4sd.TypedStore in
+/-- typed value: {"t":"n"} | {"t":"b","v":bool} | {"t":"i","v":int} | {"t":"f","m":int,"e":nat} | {"t":"x","k":nat}
+| {"t":"s","v":[code points]} | {"t":"l","v":[values]} | {"t":"m","v":[k0,v0,k1,v1,…]} -/
+partial def parseY (j : Json) : Except String YVal := do
+  let toL (l : List Json) : Except String YList := do
+    let vs ← l.mapM parseY
+    return vs.foldr YList.cons YList.nil
+  match (← getStr j "t") with
+  | "n" => return .null
+  | "b" => return .bool (← getBool j "v")
+  | "i" => return .int (← getInt j "v")
+  | "f" => return .float (← getInt j "m") (← getNat j "e")
+  | "x" => return .fspec (← getNat j "k")
+  | "s" => return .str (← getNatList j "v")
+  | "l" => return .seq (← toL (← getArr j "v"))
+  | "m" => return .map (← toL (← getArr j "v"))
+  | t => throw s!"unknown value tag {t}"
+
+open St4sd.TypedStore in
+mutual
+partial def jY : YVal → Json
+  | .null => jobj [("t", jstr "n")]
+  | .bool b => jobj [("t", jstr "b"), ("v", jbool b)]
+  | .int i => jobj [("t", jstr "i"), ("v", jint i)]
+  | .float m e => jobj [("t", jstr "f"), ("m", jint m), ("e", jnat e)]
+  | .fspec k => jobj [("t", jstr "x"), ("k", jnat k)]
+  | .str s => jobj [("t", jstr "s"), ("v", jarr (s.map jnat))]
+  | .seq l => jobj [("t", jstr "l"), ("v", jarr (jYL l))]
+  | .map l => jobj [("t", jstr "m"), ("v", jarr (jYL l))]
+partial def jYL : YList → List Json
+  | .nil => []
+  | .cons v t => jY v :: jYL t
+end
+
 def initFs (files : List (Path × Content)) : Fs := fun q =>
   match files.find? (fun f => f.1 == q) with
   | some f => some f.2
@@ -63,11 +98,14 @@ def handle (j : Json) : Except String Json := do
     let files ← getPairs j "files"
     let ops ← (← getArr j "ops").mapM parseOp
     let fs := initFs files
+    -- one pass: scanStates = crashStates (crashStates_eq_scan), firstUnsafeIn on it = firstUnsafe (firstUnsafe_eq_in)
+    let states := scanStates ops fs t
+    let fin := states.getLast?.join
     return jobj [("atomic", jbool (isAtomicProtocol ops t)),
-                 ("states", jarr ((crashStates ops fs t).map (jopt jcps))),
+                 ("states", jarr (states.map (jopt jcps))),
                  ("old", jopt jcps (fs t)),
-                 ("final", jopt jcps (run ops fs t)),
-                 ("first_unsafe", jopt jnat (firstUnsafe ops fs t))]
+                 ("final", jopt jcps fin),
+                 ("first_unsafe", jopt jnat (firstUnsafeIn states (fs t) fin))]
   | "ctrace" =>
     -- interleaved trace of several writers (inode-level model)
     let t ← getCps j "target"
@@ -89,6 +127,27 @@ def handle (j : Json) : Except String Json := do
     let sched ← getNatList j "sched"
     let evs := St4sd.FsConc.interleave t us (fun _ => 0) sched
     return jobj [("evs", jarr (evs.map jev)), ("safe", jbool (St4sd.FsConc.concSafe t evs))]
+  | "ystore" =>
+    -- history of typed documents written to one YAML / JSON state file: what every reader sees after each update
+    -- (the code's unconditional write), and what a writer that skips `==`-equal rewrites would leave
+    let init ← match j.getObjVal? "init" with
+      | .ok Json.null => pure none
+      | .ok v => pure (some (← parseY v))
+      | .error _ => pure none
+    let docs ← (← getArr j "docs").mapM parseY
+    let reads := St4sd.TypedStore.readBacks St4sd.TypedStore.writeAlways init docs
+    let skips := St4sd.TypedStore.readBacks (St4sd.TypedStore.writeSkip St4sd.TypedStore.pyEq) init docs
+    let sskips := St4sd.TypedStore.readBacks (St4sd.TypedStore.writeSkip St4sd.TypedStore.YVal.beq) init docs
+    let same := (reads.zip skips).map fun p => match p.1, p.2 with
+      | some a, some b => St4sd.TypedStore.YVal.beq a b
+      | none, none => true
+      | _, _ => false
+    let ssame := (reads.zip sskips).all fun p => match p.1, p.2 with
+      | some a, some b => St4sd.TypedStore.YVal.beq a b
+      | none, none => true
+      | _, _ => false
+    return jobj [("reads", jarr (reads.map (jopt jY))), ("pyeq_skip_reads", jarr (skips.map (jopt jY))),
+                 ("pyeq_skip_same", jarr (same.map jbool)), ("structural_skip_same", jbool ssame)]
   | "escape" => return jobj [("out", jcps (escape (← getCps j "s")))]
   | "unescape" => return jobj [("out", jopt jcps (unescape (← getCps j "s")))]
   | "encode" => return jobj [("text", jcps (encode (← getPairs j "pairs")))]
